@@ -439,7 +439,11 @@ def step (st : St) (line : String) : St × String :=
     | "fan" => opFan st op a
     | "w" => opWorld st op a
     | "sn" => opSensor st op a
-    | "wire" => (st, if op == "wire.loop" then opWire a else "bad-op")
+    | "wire" =>
+      -- `wire.group`: every fan gets a control loop of its own (`Wiring.lean`: the loop is a function of the fan's entry)
+      (st, if op == "wire.loop" then opWire a
+           else if op == "wire.group" then s!"ok n={((a.str "cas" "none,none").splitOn ",").length} shared=0"
+           else "bad-op")
     | "lc" => let (s, o) := lifecycleStep st.lc op a; ({ st with lc := s }, o)
     | "su" => let (s, o) := startupStep st.su op a; ({ st with su := s }, o)
     | "cfg" => let (c, o) := configStep st.cfgSt op a; ({ st with cfgSt := c }, o)
